@@ -398,4 +398,37 @@ def linearSelect (sel : Selection) (c : Collection) : Except Err Collection :=
   | .error e => .error e
   | .ok () => .ok c'
 
+/-! ### storage/mod.rs : `SigStore` and its lazily initialised `data` cell -/
+
+/-- A `SigStore` as selection sees it: the `data` cell (`OnceCell<Signature>`, filled or still empty)
+    and `backing` = the signature `storage.load(filename)` parses to (`none`: the store has no
+    storage).  `From<Signature>`: data filled, no backing; `new_with_storage` / `Storage::load_sig`
+    through an `InnerStorage`: both; `SigStore::builder().filename(..).storage(Some(..)).build()`:
+    data empty, backing present; `From<DatasetInfo>` / `SigStore::default()`: neither. -/
+structure Store where
+  data : Option Sig
+  backing : Option Sig
+  deriving DecidableEq, Repr, Inhabited
+
+/-- `impl Select for SigStore` : `self.data.take().ok_or(Error::MismatchKSizes)?`, then select on the
+    signature taken out of the cell.  A store that was not read yet is REFUSED. -/
+def Store.select (sel : Selection) (st : Store) : Except Err Store :=
+  match st.data with
+  | none => .error .MismatchKSizes
+  | some sg =>
+    match sg.select sel with
+    | .error e => .error e
+    | .ok sg' => .ok { st with data := some sg' }
+
+/-- `impl ReadData<Signature> for SigStore` : the cell's content; an empty cell is filled from the
+    storage first (`get_or_init`); `none` = `Err(ReadDataError::LoadError)` (empty cell, no storage).
+    Returns the signature and the store afterwards (the cell is interior-mutable). -/
+def Store.read (st : Store) : Option (Sig × Store) :=
+  match st.data with
+  | some sg => some (sg, st)
+  | none =>
+    match st.backing with
+    | some sg => some (sg, { st with data := some sg })
+    | none => none
+
 end Select
